@@ -241,7 +241,11 @@ def _teardown():
 def run_case(spec):
     from vf.realproc import run_with_watchdog
 
-    return run_with_watchdog(lambda: _run(spec), budget_s=180, what='manager call history', hang_retries=0, hang_is_violation=False)
+    try:
+        return run_with_watchdog(lambda: _run(spec), budget_s=180, what='manager call history', hang_retries=0, hang_is_violation=False)
+    except BaseException:
+        _teardown()
+        raise
 
 
 def _run(spec):
